@@ -62,6 +62,10 @@ func vpH_C08_dict() {
 	}
 	// fixed terms: the empty term, a term and its extension (prefix automaton / range bounds)
 	add(1, "", 1)
+	variant := vpChoice("variant", 6)
+	if (variant == 3 || variant == 4) && vpChoice("empty-term-in-two-documents", 2) == 1 {
+		add(2, "", 2) // the empty term then exists in both inputs of the two-segment merges
+	}
 	add(0, "x", 1)
 	add(1, "x", 1)
 	add(2, "xa", 1)
@@ -72,7 +76,6 @@ func vpH_C08_dict() {
 	}
 	seg := vpBuild(docs, 1025)
 	held := docs
-	variant := vpChoice("variant", 6)
 	switch variant {
 	case 0:
 		vpReach("C08 built")
@@ -192,6 +195,22 @@ func vpH_C08_dict() {
 		vpAssert(err == nil && ok == (n > 0), "Contains agrees with the model")
 		pl, err := d.PostingsList([]byte(t), nil, nil)
 		vpAssert(err == nil && pl != nil && pl.Count() == n, "PostingsList.Count agrees with the model")
+	}
+	// unknown field / absent term looked up with a recycled list (one that served
+	// a general term): still an empty list with an empty iterator
+	for _, probe := range []segment.Dictionary{ud, d} {
+		pre, err := d.PostingsList([]byte("x"), nil, nil)
+		vpMust(err, "PostingsList")
+		rpl, err := probe.PostingsList([]byte("absent-term"), nil, pre)
+		vpAssert(err == nil && rpl != nil && rpl.Count() == 0, "recycled list of an unknown field / absent term is empty")
+		if err == nil && rpl != nil {
+			rit, err := rpl.Iterator(true, true, true, nil)
+			vpAssert(err == nil && rit != nil, "recycled list of an unknown field / absent term has an iterator")
+			if err == nil && rit != nil {
+				p, err := rit.Next()
+				vpAssert(err == nil && p == nil, "recycled list of an unknown field / absent term has no postings")
+			}
+		}
 	}
 	vpReach("C08 dict end")
 }
